@@ -550,3 +550,17 @@ Definition route_ok (e : env) (b : Z) : bool :=
 Lemma route_ok_decodable : forall e b v t, route_ok e b = true -> spec_route b = RtDecode v t ->
   decodable e type_fuel t = true.
 Proof. intros e b v t H R. unfold route_ok in H. rewrite R in H. exact H. Qed.
+
+(* every request type a command byte routes to is decoded without panic or fuel exhaustion, in every feature set of a
+   family of environments whose routes are decodable (a reflexive obligation, discharged for the specification and for the
+   regenerated declarations) *)
+Lemma routes_clean : forall (envs : feats -> env),
+  forallb (fun f => forallb (route_ok (envs f)) bytes256) all_feats = true ->
+  forall f b v t d, In f all_feats -> 0 <= b < 256 -> spec_route b = RtDecode v t -> clean (decode (envs f) t d).
+Proof.
+  intros envs H f b v t d Hf Hb R.
+  pose proof (proj1 (forallb_forall (fun f => forallb (route_ok (envs f)) bytes256) all_feats) H f Hf) as D.
+  cbv beta in D.
+  apply decode_clean_of_decodable. apply (route_ok_decodable (envs f) b v t); [|exact R].
+  exact (forall_bytes (route_ok (envs f)) D b Hb).
+Qed.
